@@ -68,7 +68,11 @@ pub fn worker(tier: &str, seed: u64, from: u64, to: u64, extra: &[String]) -> Ag
     let faults = extra.iter().any(|e| e == "faults");
     let thorough = tier == "thorough";
     let mut agg = Agg::default();
+    let progress_file = std::env::var("VERIF_WORKER_OUT").unwrap_or_default();
     for i in from..to {
+        if !progress_file.is_empty() {
+            runner::note_progress(&progress_file, i);
+        }
         let s = runner::run_seed(seed, i);
         let g = world_a::generate(s, thorough, faults);
         let sequential = faults && rng::mix2(s, 99) % 6 == 0;
@@ -131,6 +135,12 @@ pub fn worker(tier: &str, seed: u64, from: u64, to: u64, extra: &[String]) -> Ag
                 }
                 if selftest {
                     agg.digests.push((i, rng::mix2(out.trace.digest, out.trace.sched_sig)));
+                }
+                if !out.trace.blocked.is_empty() || out.violations.iter().any(|v| v.kind == "exit_hang" || v.kind == "deadlock") {
+                    // a server thread that never parks again keeps running (and burning a core) for the rest of
+                    // this process: the violation is recorded, this worker stops exploring
+                    agg.count("workers_stopped_after_a_hang", 1);
+                    break;
                 }
                 if let Ok(d) = std::env::var("VERIF_DUMP_TRACE") {
                     if d.parse::<u64>().ok() == Some(i) {
@@ -313,7 +323,9 @@ pub fn check(property: &str, tier: &str, started: Instant) -> i32 {
         let case: Case = serde_json::from_value(f.case.clone()).expect("case");
         let (mcase, evals, minimised) = if minimise_left > 0 {
             minimise_left -= 1;
-            let (m, used) = minimise(f.seed, &case, property, &f.signature, 300);
+            // every evaluation of a hanging case costs a watchdog period and leaves a spinning thread behind
+            let hang = f.signature.starts_with("deadlock") || f.signature.starts_with("exit_hang") || f.signature.starts_with("no_quiescence");
+            let (m, used) = minimise(f.seed, &case, property, &f.signature, if hang { 10 } else { 300 });
             // the minimised file must fail the same way when replayed from its explicit choice list
             match replay_case(f.seed, &m) {
                 Ok(out) if sig_of(&out.violations, property, &f.signature) => (m, used, true),
